@@ -495,6 +495,17 @@ func (g *Gen) CreateStep(r *Runner, podKey string) *Step {
 			used[c.Name] = true
 		}
 	}
+	// a pod re-created under the same name (restart drift): the plugin recognises containers by namespace/pod/container
+	// name, a third instance of a name would make "which one is the stale instance" a matter of map order
+	for _, k := range r.M.PodKeys() {
+		if o := r.M.Pods[k]; o != p && p != nil && o.Name == p.Name && o.NS == p.NS {
+			for _, c := range r.M.PodCtrs(k) {
+				if c.State != StRemoved {
+					used[c.Name] = true
+				}
+			}
+		}
+	}
 	name := ""
 	for _, cand := range []string{"c0", "c1", "c2", "keep", "c3", "c4"} {
 		if !used[cand] && (cand != "keep" || g.R.Chance(1, 3)) {
